@@ -103,6 +103,21 @@ def Res.superseded : Op → Res → Bool
   | .swap _, .swapR _ _ changed _ _ => changed
   | _, _ => false
 
+/-- ClearContext / SetContext(nil, _) -/
+def Op.isClearCtx : Op → Bool
+  | .setContext 0 _ => true
+  | _ => false
+
+/-- does this result tell that every instance executing at the call has been superseded? (`isClear`: the call was
+ClearContext / SetContext(nil, _): whatever it reports, nothing may keep a live context afterwards) -/
+def doomsRet (isClear : Bool) : Res → Bool
+  | .bool b => b || isClear
+  | .setR _ _ => true
+  | .setSR _ _ _ => true
+  | .setS _ changed _ _ => changed
+  | .swapR _ _ changed _ _ => changed
+  | _ => false
+
 def lookupInfo (l : List (Nat × Nat × Nat × Nat)) (k : Nat) : Option (Nat × Nat × Nat) :=
   (l.find? (·.1 == k)).map (·.2)
 
@@ -140,17 +155,11 @@ def monC05 : ObsMonitor Obs C05St where
         | .setS _ _ _ _ => { ms with gotState := none, spend := ms.spend - 1 }
         | .swapR _ _ _ _ _ => { ms with gotState := none, spend := ms.spend - 1 }
         | _ => ms
-      (match r with
-       | .state v => some { ms with gotState := if ms.spend == 0 then some v else none }
-       | .bool true => some { ms with doomed := snap ++ ms.doomed }   -- SetContext / RestartRoutine that acted
-       | .bool false =>
-         -- once ClearContext has returned nothing that was executing may keep a live context, whatever it reports
-         if ms.clears.contains a then some { ms with doomed := snap ++ ms.doomed } else some ms
-       | .setR _ _ => some { ms with doomed := snap ++ ms.doomed }
-       | .setSR _ _ _ => some { ms with doomed := snap ++ ms.doomed }
-       | .setS _ true _ _ => some { ms with doomed := snap ++ ms.doomed }
-       | .swapR _ _ true _ _ => some { ms with doomed := snap ++ ms.doomed }
-       | _ => some ms)
+      let ms := match r with
+        | .state v => { ms with gotState := if ms.spend == 0 then some v else none }
+        | _ => ms
+      -- SetContext / RestartRoutine that acted, any new routine / changed state, and ClearContext whatever it reports
+      some (if doomsRet (ms.clears.contains a) r then { ms with doomed := snap ++ ms.doomed } else ms)
     | .probeCtx k c =>
       if !c && ms.doomed.contains k then none
       else if !c && (match lookupInfo ms.info k with
@@ -363,5 +372,39 @@ def monC14h : ObsMonitor Obs C14hSt where
       some { ms with expectRun := ms.expectRun || exp }
     | .quiesce _ run _ => if ms.expectRun && run.isEmpty then none else some ms
     | _ => some ms
+
+/-! ## C05a — the first sentence of C05 alone -/
+
+structure C05aSt where
+  running : List Nat := []
+  snaps : List (Nat × List Nat) := []
+  doomed : List Nat := []
+  clears : List Nat := []
+deriving Repr
+
+/-- first clause of `monC05` alone: once a superseding call (or ClearContext) has returned, no instance that was
+executing when it was invoked is seen with a live context. Proved to accept every model trace (`Props.C05a_obs`). -/
+def monC05a : ObsMonitor Obs C05aSt where
+  init := {}
+  step := fun ms o =>
+    match o with
+    | .cbin k _ _ _ => some { ms with running := ms.running ++ [k] }
+    | .cbout k _ => some { ms with running := ms.running.filter (· != k) }
+    | .inv a op =>
+      some { ms with snaps := (a, ms.running) :: ms.snaps,
+                     clears := if op.isClearCtx then a :: ms.clears else ms.clears }
+    | .ret a r =>
+      some (if doomsRet (ms.clears.contains a) r then { ms with doomed := lookupSnap ms.snaps a ++ ms.doomed } else ms)
+    | .probeCtx k false => if ms.doomed.contains k then none else some ms
+    | _ => some ms
+
+/-- uniqueness clause of `monC05` alone: at a quiescence point at most one executing instance has a live context.
+Proved to accept every model trace (`Props.C05b_obs`). -/
+def monC05b : ObsMonitor Obs Unit where
+  init := ()
+  step := fun _ o =>
+    match o with
+    | .quiesce _ _ live => if live.length ≤ 1 then some () else none
+    | _ => some ()
 
 end UtilModel.Routine
